@@ -42,11 +42,13 @@ PROVED_FRAGMENT = {
     "inside": ["Lit (all literals)", "Var (principal, action, resource, context)", "And", "Or (capabilities on both sides)",
                "UnApp Not", "UnApp Neg", "UnApp IsEmpty", "BinApp Eq", "BinApp Less", "BinApp LessEq", "BinApp Add",
                "BinApp Sub", "BinApp Mul", "BinApp Contains", "BinApp ContainsAll", "BinApp ContainsAny",
-               "If c x y (x, y boolean-rooted: And/Or/Not/Eq/HasAttr/bool literal)",
+               "If c x y (x, y any boolean-rooted form of the fragment: And/Or/Not/Eq/HasAttr/bool literal/Like/Is/IsEmpty/Less/LessEq/Contains*)",
                "HasAttr p a / GetAttr p a with p an access path (Var followed by GetAttr), records and entities, "
                "required and optional (capability-guarded) attributes", "Like", "Is"],
     "outside": ["Slot", "Unknown", "If with non-boolean-rooted branches", "BinApp In/GetTag/HasTag", "ExtCall", "GetAttr/HasAttr on non-path expressions", "SetE", "RecordE"],
     "theorems_for_both_modes": True,
+    "other_theorems": ["c03_strict_in_permissive_partial (same fragment)", "c03_accepts_guarded (judgement Simple => strict acceptance)",
+                       "c03_subty_sound (all types)"],
 }
 
 ALLOWED_ERRORS = {"EntityDoesNotExist", "IntegerOverflow", "FailedExtensionFunctionExecution"}
